@@ -509,3 +509,16 @@ Proof.
   - clear -H2. induction H2 as [|l u ls us [H1 _] _ IH]; constructor; assumption.
 Qed.
 End ToolSpec.
+
+(* ---------- a fact about the present tables: the order of the alternatives is unobservable ---------- *)
+Fixpoint pairwise_prefix_free (rules : list longrule) : bool :=
+  match rules with
+  | [] => true
+  | r :: rest =>
+    forallb (fun r2 => negb (starts_with (lr_suffix r) (lr_suffix r2)) && negb (starts_with (lr_suffix r2) (lr_suffix r))) rest
+    && pairwise_prefix_free rest
+  end.
+
+Definition tables_prefix_free : bool :=
+  forallb (fun lo => forallb (fun ks => pairwise_prefix_free (st_longer (snd ks))) (build_flatten (snd lo)))
+          flatten_languages.
